@@ -207,6 +207,8 @@ class V4(object):
             [("self.original_metrics", f["original_metrics"])] if "original_metrics" in f else [])
         o.v4view = self
         o.written = set()
+        o.assumed_state = True
+        o.assumed_fields = set(o.fields)
         return o
 
 
